@@ -147,3 +147,66 @@ pub fn run_origin(sim: &Sim, _idx: u64) {
         sim.violation("C03/request-te-wrong", format!("origin {origin:?}: te {:?} content-type {:?}", req.headers.get("te"), req.headers.get("content-type")));
     }
 }
+
+/// A service whose proto names are not canonical UpperCamel / snake_case (`HTTPecho_v2`, `get_URL`):
+/// paths and the service name on the wire are the proto identifiers, not the Rust item names.
+/// Client side seen by a foreign peer, server side driven by a raw request.
+pub fn run_odd_names(sim: &Sim, _idx: u64) {
+    use crate::pb::htt_pecho_v2_client::HttPechoV2Client;
+    use crate::pb::htt_pecho_v2_server::{HttPechoV2, HttPechoV2Server};
+    use crate::pb::Msg;
+    use crate::peer::{raw_call, wire_status, PeerSvc};
+    use prost::Message as _;
+    struct Svc;
+    #[tonic::async_trait]
+    impl HttPechoV2 for Svc {
+        async fn get_url(&self, r: tonic::Request<Msg>) -> Result<tonic::Response<Msg>, tonic::Status> {
+            Ok(tonic::Response::new(r.into_inner()))
+        }
+        type PingStream = tokio_stream::Once<Result<Msg, tonic::Status>>;
+        async fn ping(&self, r: tonic::Request<Msg>) -> Result<tonic::Response<Self::PingStream>, tonic::Status> {
+            Ok(tonic::Response::new(tokio_stream::once(Ok(r.into_inner()))))
+        }
+    }
+    let streaming = sim.chance(1, 2);
+    let want_path = if streaming { "/simpb.HTTPecho_v2/Ping" } else { "/simpb.HTTPecho_v2/get_URL" };
+    sim.nontrivial();
+    sim.sample(|| format!("odd proto names: {want_path}"));
+    if <HttPechoV2Server<Svc> as tonic::server::NamedService>::NAME != "simpb.HTTPecho_v2" || crate::pb::htt_pecho_v2_server::SERVICE_NAME != "simpb.HTTPecho_v2" {
+        sim.violation("C03/service-name-wrong", format!("NamedService::NAME = {:?}, SERVICE_NAME = {:?}; the proto says simpb.HTTPecho_v2", <HttPechoV2Server<Svc> as tonic::server::NamedService>::NAME, crate::pb::htt_pecho_v2_server::SERVICE_NAME));
+    }
+    // ---- client side
+    let peer = PeerSvc::new(sim);
+    let mut client = HttPechoV2Client::new(peer.clone());
+    let msg = Msg { tag: 7, data: sim.bytes(sim.range(0, 20) as usize), text: String::new(), nums: vec![] };
+    {
+        let m = msg.clone();
+        let fut = async {
+            if streaming {
+                client.ping(tonic::Request::new(m)).await.map(|_| ()).map_err(|e| e.code())
+            } else {
+                client.get_url(tonic::Request::new(m)).await.map(|_| ()).map_err(|e| e.code())
+            }
+        };
+        let mut fut = std::pin::pin!(fut);
+        let _ = simcore::drive(sim, fut.as_mut(), 1_000_000);
+    }
+    match peer.seen.lock().unwrap().first() {
+        None => sim.violation("C03/no-request-on-wire", "odd names: no request reached the transport".into()),
+        Some(req) => {
+            let got = req.uri.as_ref().map(|u| u.path().to_string()).unwrap_or_default();
+            if got != want_path {
+                sim.violation("C03/request-path-wrong", format!("generated client posts to {got:?}, the proto's method is {want_path:?}"));
+            }
+        }
+    }
+    // ---- server side
+    let mut server = HttPechoV2Server::new(Svc);
+    let headers: Vec<(String, Vec<u8>)> = vec![("content-type".into(), b"application/grpc".to_vec()), ("te".into(), b"trailers".to_vec())];
+    let body = vec![crate::seams::Ev::Data(bytes::Bytes::from(crate::indep::frame(0, &msg.encode_to_vec())))];
+    let Some(resp) = raw_call(sim, "C03", &mut server, http::Method::POST, want_path, &headers, body, 0) else { return };
+    match wire_status(&resp) {
+        Some((0, _)) => sim.probe("odd-named-method-served"),
+        other => sim.violation("C03/proto-path-not-served", format!("generated server answers the proto's path {want_path:?} with grpc-status {other:?}")),
+    }
+}
